@@ -133,7 +133,7 @@ func (d *UpGrid) Cases(tier string) []GridCase {
 	data := map[string][]string{
 		"balance":   {"unprefixed", "prefixed", "mixed", "empty", "unprefixed-every-first-byte"},
 		"container": {"unprefixed", "prefixed", "mixed", "unprefixed-every-first-byte"},
-		"netmap":    {"ring10", "ring12", "ring3"},
+		"netmap":    {"ring10", "ring12", "ring3", "ring6-gap"},
 		"nns":       {"names", "names-two-tlds"},
 	}
 	for _, c := range c16Targets {
@@ -157,6 +157,11 @@ func (d *UpGrid) Cases(tier string) []GridCase {
 						continue // switching an Alphabet contract with notary=true redistributes GAS through Netmap/Proxy: out of this grid
 					}
 					out = append(out, GridCase{Name: fmt.Sprintf("%s from %d storage=%s %s", c, v, dvar, f), Data: upCase{c, v, dvar + " " + f}})
+					if i == 0 && j == 0 && c != "alphabet" {
+						// the caller's own data in front of the version the old code appends: an integer that would pass
+						// the gate where the deployed version does not, and the other way round
+						out = append(out, GridCase{Name: fmt.Sprintf("%s from %d storage=%s %s data=decoy", c, v, dvar, f), Data: upCase{c, v, dvar + " " + f + " data=decoy"}})
+					}
 				}
 			}
 		}
@@ -313,6 +318,13 @@ func (d *UpGrid) updateData(c upCase) []any {
 		// the Alphabet migration reads its deployment tuple: [notaryDisabled, netmap, proxy, name, index, total]
 		return []any{false, d.fake[0], d.fake[1], "az", int64(0), int64(1), c.V}
 	}
+	if strings.Contains(c.Variant, "data=decoy") {
+		decoy := d.cur - 1
+		if c.V >= d.prev && c.V < d.cur {
+			decoy = d.cur
+		}
+		return []any{decoy, c.V}
+	}
 	return []any{c.V}
 }
 
@@ -443,8 +455,16 @@ func (d *UpGrid) legacy(w *World, c upCase, put func(k, v []byte)) []upExpect {
 			upExpect{method: "eACL", args: []any{cid}, contains: Hx(eacl), note: "cid1"},
 			upExpect{method: "alias", args: []any{cid}, want: fmt.Sprint(NXs("nice.container")), note: "cid1"})
 	case "netmap":
-		ring := map[string]int{"ring10": 10, "ring12": 12, "ring3": 3}[dataVar]
+		ring := map[string]int{"ring10": 10, "ring12": 12, "ring3": 3, "ring6-gap": 6}[dataVar]
 		curID := ring - 1 // the newest snapshot sits in the last slot, so every slot is in use
+		vacant := map[int]bool{}
+		if dataVar == "ring6-gap" {
+			// a history of 4 enlarged to 6 while the newest map sat in slot 1: slots 2 and 3 have not been written yet,
+			// the two oldest maps live behind the gap in slots 4 and 5
+			curID = 1
+			vacant[2], vacant[3] = true, true
+		}
+		ago := func(slot int) int { return ((curID-slot)%ring + ring) % ring }
 		old := c.V < 16000
 		node := func(tag byte) []byte {
 			return append(append([]byte{0, 0}, DetKey(0x44, int(tag)).PublicKey().Bytes()...), tag)
@@ -466,8 +486,10 @@ func (d *UpGrid) legacy(w *World, c upCase, put func(k, v []byte)) []upExpect {
 		put([]byte("snapshotBlock"), leInt(5))
 		put([]byte("snapshotCurrent"), leInt(int64(curID)))
 		for i := 0; i < ring; i++ {
-			// slot i holds the map published (curID - i) ticks ago
-			put(append([]byte("snapshot_"), byte(i)), snap(byte(10*(curID-i))))
+			// slot i holds the map published (curID - i) mod ring ticks ago
+			if !vacant[i] {
+				put(append([]byte("snapshot_"), byte(i)), snap(byte(10*ago(i))))
+			}
 		}
 		cand := node(200)
 		candKey := append([]byte("candidate"), cand[2:35]...)
@@ -490,6 +512,9 @@ func (d *UpGrid) legacy(w *World, c upCase, put func(k, v []byte)) []upExpect {
 		ex = append(ex, upExpect{method: "epoch", want: NI(epoch).(string)}, upExpect{method: "config", args: []any{[]byte("ContainerFee")}, want: fmt.Sprint(NX(leInt(1000))), note: "ContainerFee"},
 			upExpect{method: "netmapCandidates", want: fmt.Sprint([]any{[]any{NX(cand), "i3"}})})
 		for dd := 0; dd < ring; dd++ {
+			if vacant[((curID-dd)%ring+ring)%ring] {
+				continue
+			}
 			want := []any{[]any{NX(node(byte(10 * dd))), "i1"}, []any{NX(node(byte(10*dd + 1))), "i1"}}
 			ex = append(ex, upExpect{method: "snapshot", args: []any{int64(dd)}, want: fmt.Sprint(want), note: fmt.Sprintf("%d ticks ago", dd)})
 		}
